@@ -141,7 +141,8 @@ fn check_op(n: usize, a: &Key, b: &Key, op: &str) -> Result<Key, (String, String
         }
         // both operands the SAME object: `&a & &a`, `&a | &a` are results of an operation too
         // (a, whatever cubes it was built from: irredundant cover of the same function)
-        if op != "not" {
+        // (every 4th case by a hash of the operands: each operand recurs in many cases)
+        if op != "not" && (a.iter().chain(b.iter()).fold(a.len() as u32 * 31 + b.len() as u32, |h, (p, q)| h.wrapping_mul(1_000_003) ^ p ^ (q << 7)) % 4 == 0 || a == b) {
             check_result("&a & &a (both operands the same object)", n, &(&sa & &sa), &fa)?;
             check_result("&a | &a (both operands the same object)", n, &(&sa | &sa), &fa)?;
         }
